@@ -317,6 +317,7 @@ func (e *c12Env) step(s c12Step) string {
 		e.classes["hit:"+s.C] = true
 	}
 	ctx := c12Ctx(s.X)
+	ca0, cb0 := e.tw.mA.CommandCount(), e.tw.mB.CommandCount()
 	got, gerr := ent.wrap(e, ctx, s)
 	defer e.noteErr(gerr)
 	if gerr == breaker.ErrServiceUnavailable {
@@ -341,6 +342,11 @@ func (e *c12Env) step(s c12Step) string {
 			return fmt.Sprintf("wrapper returned %s, go-redis with the same arguments (after the documented conversion) %s", g, w)
 		}
 	}
+	// same effect on the server: the wrapper's server processed as many commands as
+	// the server of the corresponding go-redis call
+	if da, db := e.tw.mA.CommandCount()-ca0, e.tw.mB.CommandCount()-cb0; da != db {
+		return fmt.Sprintf("the wrapper made its server process %d commands, the go-redis call %d", da, db)
+	}
 	return ""
 }
 
@@ -364,6 +370,7 @@ func (e *c12Env) pipeline(s c12Step) string {
 	}
 	var ca, cb []red.Cmder
 	ctx := c12Ctx(s.X)
+	na0, nb0 := e.tw.mA.CommandCount(), e.tw.mB.CommandCount()
 	var gerr error
 	if s.X {
 		gerr = e.r.PipelinedCtx(ctx, queue(ctx, &ca))
@@ -382,6 +389,9 @@ func (e *c12Env) pipeline(s c12Step) string {
 		if a, b := ca[i].String(), cb[i].String(); a != b {
 			return fmt.Sprintf("pipelined command %d: wrapper side %q, go-redis side %q", i, a, b)
 		}
+	}
+	if da, db := e.tw.mA.CommandCount()-na0, e.tw.mB.CommandCount()-nb0; da != db {
+		return fmt.Sprintf("the wrapper's Pipelined made its server process %d commands, go-redis' Pipelined %d", da, db)
 	}
 	if len(s.P) > 0 {
 		e.classes["pipeline:non-empty"] = true
